@@ -285,3 +285,112 @@ func VH_C06_ConcurrentConn(n, mode int) {
 	}
 	vhReach("c06-concurrent-conn")
 }
+
+// H7 (level S): two RoundTrips run concurrently on one pool. Each gets a connection of its own; the broker answers the
+// second call first. Each call must return the answer written on its own connection. A third call then reuses an
+// idle connection and must get the answer to its own request (correlation id read back from the bytes it wrote).
+func VH_C06_TransportConcurrent(order int) {
+	vhConcreteClock(true)
+	dials := 0
+	nodeA, nodeB, nodeC := vhInt32("answer_for_A"), vhInt32("answer_for_B"), vhInt32("answer_for_C")
+	coord := func(corr int32, node int32) []byte {
+		w := &vhW{}
+		w.i16(0)
+		w.i32(node)
+		w.str("h")
+		w.i32(9092)
+		return vhFrameOf(corr, w.b)
+	}
+	mkConn := func(node int32) *vhFakeConn {
+		f1 := vhApiVersionsFrame(1, []vhApiRange{{10, 0, 0}, {3, 0, 1}})
+		c := &vhFakeConn{data: append(append([]byte{}, f1...), coord(2, node)...)}
+		c.gate, c.gateAfter = make(chan struct{}), len(f1)
+		return c
+	}
+	conns := []*vhFakeConn{mkConn(nodeA), mkConn(nodeB)}
+	ready := make(event)
+	close(ready)
+	p := &connPool{
+		dial: func(ctx context.Context, network, address string) (net.Conn, error) {
+			c := conns[dials]
+			dials++
+			return c, nil
+		},
+		dialTimeout: time.Second, idleTimeout: time.Minute, clientID: "vh",
+		ready: ready, wake: make(chan event), conns: make(map[int32]*connGroup),
+	}
+	p.ctrl = p.newConnGroup(&networkAddress{network: "tcp", address: "bootstrap:9092"})
+	p.setState(connPoolState{})
+	ctx := context.Background()
+	var res [3]Response
+	var errs [3]error
+	var done [3]bool
+	call := func(i int, key string) {
+		res[i], errs[i] = p.roundTrip(ctx, &pfindcoordinator.Request{Key: key})
+		done[i] = true
+	}
+	go call(0, "A")
+	vhSettle()
+	go call(1, "B")
+	vhSettle()
+	vhAssert(dials == 2, "each-concurrent-call-has-a-connection-of-its-own")
+	if dials != 2 {
+		return
+	}
+	vhAssert(len(conns[0].written) > 0 && len(conns[1].written) > 0, "both-requests-are-in-flight")
+	vhAssert(!done[0] && !done[1], "calls-wait-for-their-responses")
+	first, second := 1, 0
+	if order == 1 {
+		first, second = 0, 1
+	}
+	conns[first].release()
+	vhSettle()
+	vhAssert(done[first] && !done[second], "an-answer-completes-only-the-call-on-its-connection")
+	conns[second].release()
+	vhSettle()
+	want := []int32{nodeA, nodeB}
+	for i := 0; i < 2; i++ {
+		vhAssert(done[i] && errs[i] == nil, "concurrent-call-succeeds")
+		if done[i] && errs[i] == nil {
+			vhAssert(res[i].(*pfindcoordinator.Response).NodeID == want[i], "concurrent-call-gets-the-answer-from-its-own-connection")
+		}
+	}
+	// third call: reuses an idle connection; the broker answers the request it finds on that connection
+	w0, w1 := len(conns[0].written), len(conns[1].written)
+	for _, fc := range conns {
+		// the next answer on either connection is again still on its way
+		fc.gate, fc.gateOpen, fc.gateAfter = make(chan struct{}), false, len(fc.data)
+	}
+	go call(2, "C")
+	vhSettle()
+	vhAssert(dials == 2, "an-idle-connection-is-reused")
+	used := -1
+	if len(conns[0].written) > w0 {
+		used = 0
+	}
+	if len(conns[1].written) > w1 {
+		vhAssert(used < 0, "request-C-written-once")
+		used = 1
+	}
+	vhAssert(used >= 0, "request-C-written-to-a-pooled-connection")
+	if used < 0 {
+		return
+	}
+	reqC := conns[used].written
+	if used == 0 {
+		reqC = reqC[w0:]
+	} else {
+		reqC = reqC[w1:]
+	}
+	vhAssert(len(reqC) >= 12, "request-C-has-a-header")
+	corrC := int32(uint32(reqC[8])<<24 | uint32(reqC[9])<<16 | uint32(reqC[10])<<8 | uint32(reqC[11]))
+	vhAssert(corrC != 2, "correlation-ids-are-not-reused-on-a-connection")
+	conns[used].data = append(conns[used].data, coord(corrC, nodeC)...)
+	conns[used].release()
+	vhSettle()
+	vhAssert(done[2] && errs[2] == nil, "call-on-a-reused-connection-succeeds")
+	if done[2] && errs[2] == nil {
+		vhAssert(res[2].(*pfindcoordinator.Response).NodeID == nodeC, "call-on-a-reused-connection-gets-its-own-answer")
+	}
+	vhReach("c06-transport-concurrent")
+}
